@@ -58,7 +58,7 @@ def run(ctx):
     for k in range(shards):
         out = os.path.join(ctx.scratch, f"ssm_{k}.json")
         procs.append((out, subprocess.Popen([common.PY, os.path.join(common.HARNESS, "worker_ssm.py"), out,
-                                             str(ctx.seed * 100 + k), str((nn + shards - 1) // shards)],
+                                             str(ctx.seed * 100 + k), str((nn + shards - 1) // shards), ctx.tier],
                                             env=env, stdout=subprocess.PIPE, stderr=subprocess.PIPE, text=True,
                                             cwd=ctx.scratch)))
     cases, files, worker_errs = [], [], []
@@ -88,16 +88,20 @@ def run(ctx):
     verdicts = Counter()
     if long_idx:
         import re
-        vf = os.path.join(ctx.scratch, "cases_ssm_long.v")
-        lines = []
-        for i in long_idx:
+        from concurrent.futures import ThreadPoolExecutor
+
+        def one(i):
             c = cases[i]
             ys = "[" + "; ".join(n(y) for y in c["ys"]) + "]"
-            lines.append(f"hmm_long {n(i)} {n(c['K'])} {ql(c['pi0'])} {qm(c['A'])} {qm(c['E'])} {ys} {q(c['lm'])} {q(c['tol'])} {ql(c['filt'])}.")
-        open(vf, "w").write("From Coq Require Import Reals QArith List. Import ListNotations.\n"
-                            "From GV Require Import Model.CorrSsmLong.\nGoal True.\n" + "\n".join(lines) + "\nexact I.\nQed.\n")
-        pr = subprocess.run(["timeout", "1500", "coqc", "-Q", common.COQ, "GV", vf], capture_output=True, text=True)
-        out = pr.stdout + pr.stderr
+            line = f"hmm_long {n(i)} {n(c['K'])} {ql(c['pi0'])} {qm(c['A'])} {qm(c['E'])} {ys} {q(c['lm'])} {q(c['tol'])} {ql(c['filt'])}."
+            vf = os.path.join(ctx.scratch, f"cases_ssm_long_{i}.v")
+            open(vf, "w").write("From Coq Require Import Reals QArith List. Import ListNotations.\n"
+                                "From GV Require Import Model.CorrSsmLong.\nGoal True.\n" + line + "\nexact I.\nQed.\n")
+            return subprocess.run(["timeout", "1500", "coqc", "-Q", common.COQ, "GV", vf], capture_output=True, text=True)
+        with ThreadPoolExecutor(max_workers=12) as ex:
+            prs = list(ex.map(one, long_idx))
+        out = "\n".join(p_.stdout + p_.stderr for p_ in prs)
+        pr = max(prs, key=lambda p_: p_.returncode)
         got = {int(i): v for i, v in re.findall(r"CASE (\d+)(?:%nat)? (OK|BADFILTER|BAD|UNDECIDED)", out)}
         if pr.returncode != 0:
             coq_errs.append(out[-1500:])
@@ -121,7 +125,7 @@ def run(ctx):
                          "rule": "HMM: random rational initial / transition / emission tables (1-4 states, 2-4 symbols, 40% with sparse transition rows), sequences of length "
                                  "1-5: filtering distributions, marginal likelihood, sequence probability of a reachable path and the probability backward sampling assigns to it "
                                  "(logits recorded under scripted draws) compared with the forward-recursion model AND with brute-force enumeration of all state sequences; "
-                                 "HMM long: 2-3 states, sequences of length 70-250 (log marginal far below the float32 exp underflow): log marginal compared with ln of the exact rational "
+                                 "HMM long: 2-3 states, 3-4 symbols, sequences of length 75-110 (quick) or 120-180 (thorough), log marginal around -100 or lower, far below the float32 exp underflow: log marginal compared with ln of the exact rational "
                                  "marginal of the vector recursion by the Interval tactic (tolerance 0.02 + 5e-5|lm|), last filtering distribution in probability space; "
                                  "Kalman: random rational models with d_state, d_obs in 1..3 (70% with d_obs != d_state), T in 1..4: filtered and smoothed moments and the log "
                                  "marginal likelihood compared with the recursion model AND with dense joint-Gaussian conditioning (tolerance 2e-4, lml through rational exp "
